@@ -162,8 +162,10 @@ fn strat_deep() -> BoxedStrategy<Case> {
         1 => Just(3 * n - 1),
         1 => Just(2 * n - 1),
         2 => (0i64..(4 * n - 1)),
+        // the polar ring where 1 + 2 h first exceeds 2^53 (float sqrt of the ring index), depth >= 26
+        1 => (-64i64..=64).prop_map(move |k| (47_453_132 + k).min(n - 1)),
       ];
-      (ring, any::<bool>(), 0u8..5, 0.0f64..1.0).prop_map(move |(ir, south, which, u)| {
+      (ring, any::<bool>(), 0u8..9, 0.0f64..1.0).prop_map(move |(ir, south, which, u)| {
         let ir = ir.max(0).min(4 * n - 2);
         let ir = if south { 4 * n - 2 - ir } else { ir };
         let first = lattice::cells_before_ring(n, ir) as u64;
@@ -173,6 +175,10 @@ fn strat_deep() -> BoxedStrategy<Case> {
           1 => (1.min(len - 1), "second_in_ring"),
           2 => (len - 1, "last_in_ring"),
           3 => (len / 4, "quadrant_start"),
+          4 => (len / 2, "quadrant_start"),
+          5 => (3 * (len / 4), "quadrant_start"),
+          6 => ((len / 4).max(1) - 1, "quadrant_end"),
+          7 => ((1 + (u * 3.0) as u64).min(3) * (len / 4) - 1.min(len / 4), "quadrant_end"),
           _ => (((u * len as f64) as u64).min(len - 1), "random_in_ring"),
         };
         Case { depth: d, r: first + k, class: class.to_string() }
@@ -192,11 +198,13 @@ pub fn run(ctx: &Ctx, rep: &mut Report) {
     ctx.run_enum(rep, &format!("order_d{}", d), lattice::n_hash(d), |r| Case { depth: d, r, class: "enumerated".into() }, check_order);
   }
   ctx.run_random(rep, "deep_ring_boundaries", strat_deep, ctx.tier.pick(1_500_000, 60_000_000), check);
+  // the ordering clause (r -> r + 1) at depth 9..=29, on the same ring-boundary classes
+  ctx.run_random(rep, "deep_order", strat_deep, ctx.tier.pick(600_000, 30_000_000), check_order);
   ctx.run_random(rep, "uniform", strat_uniform, ctx.tier.pick(500_000, 20_000_000), check);
 }
 
 pub fn replay(ctx: &Ctx, rep: &mut Report, section: &str, case: &Value) -> Result<(), String> {
-  if section.starts_with("order") {
+  if section.starts_with("order") || section == "deep_order" {
     ctx.run_one(rep, section, &super::de::<Case>(case)?, check_order);
   } else {
     ctx.run_one(rep, section, &super::de::<Case>(case)?, check);
